@@ -83,7 +83,7 @@ package clickhouse_planner
 // ---------------------------------------------------------------- index reads: the date range must cover the window (C13)
 
 // Lower date bound used by every LogQL index read: the UTC day of (From - 30 min).
-//@ func FormatFromDate [C13]
+//@ func FormatFromDate [C07,C13]
 //@   modifies fmtDay
 //@   ensures fmtDay == fdiv(from.UnixNano() - 1800000000000, 86400000000000)
 //@   ensures dayOfDateText(result) == fdiv(from.UnixNano() - 1800000000000, 86400000000000)
